@@ -91,6 +91,15 @@ impl Interner {
         let n = self.map.len() + 1;
         *self.map.entry(s.to_string()).or_insert(n)
     }
+    /// ` (<string> <id>)…` for the driver's `infer` request (names that are plain identifiers)
+    pub fn names_sx(&self) -> String {
+        let mut v: Vec<(&String, &usize)> = self.map.iter().collect();
+        v.sort_by_key(|(_, i)| **i);
+        v.iter()
+            .filter(|(n, _)| !n.is_empty() && n.chars().all(|c| c.is_ascii_alphanumeric() || c == '_' || c == '?'))
+            .map(|(n, i)| format!(" ({n} {i})"))
+            .collect()
+    }
     fn opt(&mut self, s: &Option<String>) -> String {
         match s {
             Some(s) => self.id(s).to_string(),
